@@ -35,6 +35,7 @@ const token = "c11-token"
 
 var run *h.Run
 var pa *h.PortAlloc
+var load *h.LoadProbe
 
 // grace for "closed within the configured user-connection timeout": 3x timeout + 10 s (bounded-progress watchdog)
 const userConnTimeoutS = 2
@@ -101,6 +102,7 @@ func main() {
 	// "left open" behind GC timing. With GC off, closed means closed by the code.
 	defer h.DisableGC(12)()
 	pa = h.Ports(prop)
+	load = h.StartLoadProbe()
 	startServers()
 	n := run.N(120, 1200)
 	run.ParallelRange(0, n, 12, func(c *h.Case) {
@@ -289,6 +291,8 @@ func (s *supplier) close() {
 // A. exactly-once join
 
 type userResult struct {
+	start   time.Time
+	took    time.Duration
 	nonce   string
 	local   string
 	outcome string // bridged | closed | stuck
@@ -296,14 +300,15 @@ type userResult struct {
 	err     string
 }
 
-func oneUser(addr string, idx int64) userResult {
+func oneUser(addr string, idx int64) (res userResult) {
 	c, err := net.DialTimeout("tcp", addr, 5*time.Second)
 	if err != nil {
 		return userResult{outcome: "closed", err: "dial: " + err.Error()}
 	}
 	defer c.Close()
 	nonce := fmt.Sprintf("N%015x", idx)
-	res := userResult{nonce: nonce, local: c.LocalAddr().String()}
+	res = userResult{nonce: nonce, local: c.LocalAddr().String(), start: time.Now()}
+	defer func() { res.took = time.Since(res.start) }()
 	_ = c.SetDeadline(time.Now().Add(closeGrace))
 	if _, err := c.Write([]byte(nonce)); err != nil {
 		res.outcome, res.err = "closed", err.Error()
@@ -413,6 +418,17 @@ func scenarioJoin(c *h.Case) {
 			c.Violation("user-connection-left-open-without-peer", "mode %s pool %d: user %s neither bridged nor closed after %v", mode, pool, u.nonce, closeGrace)
 		case "closed":
 			closed++
+			if mode == "never" && !u.start.IsZero() {
+				// nothing is ever supplied: the only reason to close is the user-connection timeout. The bound is
+				// the timeout plus 1.5 s plus 20x the worst timer overshoot this process saw meanwhile (a loaded
+				// machine widens the bound instead of raising an alarm).
+				over := load.MaxOvershoot(u.start)
+				bound := userConnTimeoutS*time.Second + 1500*time.Millisecond + 20*over
+				run.Count("never_supplied_closures_timed", 1)
+				if u.took > bound {
+					c.Violation("user-connection-closed-later-than-timeout", "mode never, pool_count %d, maxPoolCount %d: user connection closed %v after it was opened; userConnTimeout is %d s (bound used %v, worst timer overshoot meanwhile %v)", pool, ss.mp, u.took.Round(time.Millisecond), userConnTimeoutS, bound.Round(time.Millisecond), over)
+				}
+			}
 			if len(byNonce[u.nonce]) > 0 && mode == "prompt" {
 				run.Count("closed_after_partial_bridge", 1)
 			}
